@@ -7,13 +7,29 @@
 //   mul    T: 1-point paths (a,b) = uint64 bit patterns     Multiply(a,b)
 //   pae    T: 2-point paths (a,b),(c,d)                     ProductsAreEqual(a,b,c,d)
 //   tri    T: 3-point paths p1,p2,p3                        CrossProductSign(p1,p2,p3), IsCollinear(p1,p2,p3)
-//   pip    POLY: one polygon, Q: one path of query points   PointInPolygon(q, poly) per query point
+//   pip    POLY: polygons, Q: query points of POLY[i] in Q[i] PointInPolygon(q, poly) per query point
 //   isect  SEG: 4-point paths a,b,c,d                       GetSegmentIntersectPt(a,b,c,d,ip)
 //   area   PATHS: a list of paths                           Area(path) per path, Area(paths)
 //
 // --mode grid : indexable exhaustive enumeration (22^4 ProductsAreEqual tuples, T^6 point triples, Multiply pairs,
 //               all 3- and 4-vertex polygons of a 4x4 lattice against a 9x9 query lattice);
 // --mode rand : random + adversarial bundles, kinds chosen by --kinds.
+//
+// Claims (each a consequence of the property text):
+//   C18.multiply               Multiply(a,b) == (unsigned __int128)a*b
+//   C18.products_equal         ProductsAreEqual(a,b,c,d) == (a*b == c*d), all int64 arguments
+//   C18.cross_sign             CrossProductSign == sign((p2-p1)x(p3-p2)), premise: the four differences are representable
+//   C18.is_collinear           IsCollinear == (that cross product == 0), same premise
+//   C18.point_in_polygon       == exact {on, inside by even-odd, outside}; |coord| <= 2^25, >= 3 points, not all on one horizontal line
+//   C18.isect_parallel         GetSegmentIntersectPt returns false iff the exact determinant is 0; |coord| <= 2^40
+//   C18.isect_accuracy         crossing on both closed segments: |ip - crossing| <= 1 on each axis (exact rational test)
+//   C18.isect_on_first_segment same premise: ip inside the bounding box of the first segment and |cross(a,b,ip)| <= |dx|+|dy|
+//                              (DESIGN.md's |cross| <= max(|dx|,|dy|) is NOT implied by "within one unit per axis": the
+//                              truncating default variant legitimately exceeds it on ~3% of the calls; corrected here)
+//   C18.area                   |2*Area - exact doubled shoelace| <= (n+2)*2^-52*sum|term|; Area(paths) accordingly
+// Classifier tags of the genuine GetSegmentIntersectPt defects seen on the unchanged tree (first tag of the violation):
+//   det_below_double_ulp, ill_conditioned, trunc_plus_rounding, trunc_plus_rounding_M_le_2^35,
+//   rounding_amplified_by_conditioning, hp_one_unit_outside_bounding_box   (definitions at the place of use)
 #include "geom.h"
 #include "clipper2/clipper.core.h"
 #include <cmath>
